@@ -328,8 +328,8 @@ struct RunOut {
     summary: String,
     events: Vec<Ev>,
     calls: BTreeMap<u64, usize>,
-    /// (requested, processed) after every poll
-    counters: Vec<(u64, u64)>,
+    /// (requested, processed, supplier calls started, supplier calls returned) after every poll
+    counters: Vec<(u64, u64, u64, u64)>,
     finished: Vec<bool>,
     stalled: bool,
     blocked_polls: usize,
@@ -422,7 +422,9 @@ fn run_scheduled(c: &Case) -> RunOut {
             out.blocked_polls += 1;
         }
         let ps = sym.pending_stats();
-        out.counters.push((ps.symbols_requested, ps.symbols_processed));
+        let started = shg.events.iter().filter(|e| matches!(e, Ev::Call(_))).count() as u64;
+        let returned = shg.events.iter().filter(|e| matches!(e, Ev::Ret(_))).count() as u64;
+        out.counters.push((ps.symbols_requested, ps.symbols_processed, started, returned));
         let s = format!(
             "{t}[{}]{}/{}w{}f{}",
             evs.iter().map(ev_str).collect::<Vec<_>>().join(","),
@@ -503,12 +505,14 @@ fn run_join_all(c: &Case) -> RunOut {
     let shg = sh.lock().unwrap();
     let finished = vec![done; n];
     let ps = sym.pending_stats();
+    let started = shg.events.iter().filter(|e| matches!(e, Ev::Call(_))).count() as u64;
+    let returned = shg.events.iter().filter(|e| matches!(e, Ev::Ret(_))).count() as u64;
     RunOut {
         trace: vec![],
         summary: summary(c, &sym, &shg, &finished),
         events: shg.events.clone(),
         calls: shg.calls.clone(),
-        counters: vec![(ps.symbols_requested, ps.symbols_processed)],
+        counters: vec![(ps.symbols_requested, ps.symbols_processed, started, returned)],
         finished,
         stalled: !done,
         blocked_polls: 0,
@@ -553,9 +557,17 @@ fn oracle(c: &Case, r: &RunOut) -> Vec<(String, String)> {
     }
     // (3) counters: processed <= requested <= #distinct modules at every poll; both equal the
     //     number of distinct modules at the end
-    for (i, (rq, pr)) in r.counters.iter().enumerate() {
+    for (i, (rq, pr, _, _)) in r.counters.iter().enumerate() {
         if !(pr <= rq && *rq <= distinct.len() as u64) {
             o.push(("counters-out-of-order".into(), format!("after poll #{i}: requested={rq} processed={pr} distinct modules={}", distinct.len())));
+            break;
+        }
+    }
+    //     and they mean what their documentation says: requested = supplier lookups started,
+    //     processed = supplier lookups finished ("the number of symbols we have finished processing")
+    for (i, (rq, pr, st, rt)) in r.counters.iter().enumerate() {
+        if rq != st || pr != rt {
+            o.push(("counters-vs-supplier".into(), format!("after poll #{i}: requested={rq} processed={pr} but the supplier has started {st} and finished {rt} lookups")));
             break;
         }
     }
@@ -564,7 +576,7 @@ fn oracle(c: &Case, r: &RunOut) -> Vec<(String, String)> {
         let class = if c.mode == 'a' { "deadlock" } else { "lost-wakeup-or-hang" };
         o.push((class.into(), format!("tasks finished: {:?} (stalled={})", r.finished, r.stalled)));
     } else {
-        if let Some((rq, pr)) = r.counters.last() {
+        if let Some((rq, pr, _, _)) = r.counters.last() {
             if *rq != distinct.len() as u64 || *pr != distinct.len() as u64 {
                 o.push(("final-counters".into(), format!("all tasks finished: requested={rq} processed={pr} distinct modules={}", distinct.len())));
             }
@@ -623,7 +635,7 @@ impl Engine for Once {
         "once"
     }
     fn rule(&self) -> String {
-        "case = (executor, one program of module keys per task, supplier table key -> (suspensions, outcome), poll schedule). Exhaustive part: ALL poll sequences (leaves of the prefix-closed tree; the trace is compared after every poll, so every prefix is covered) of length lookups+suspensions+slack for 2 tasks x <=2 lookups x <=2 keys x <=2 suspensions and 3 tasks x 1 lookup x 2 keys x <=1 suspension, arbitrary-poll executor; random part: 2..4 tasks x 1..3 lookups x 1..3 keys x 0..3 suspensions x outcomes ok/nf/pe under the arbitrary-poll executor (random schedules with spurious polls), the waker-respecting executor (random choices among woken tasks) and join_all on a tokio runtime. non-trivial = at least two tasks ask for a common key and at least one poll found the lock taken (blocked poll) or the run used >= 2 tasks with a suspending supplier; distinct = distinct case line".into()
+        "case = (executor, one program of module keys per task, supplier table key -> (suspensions, outcome), poll schedule). Exhaustive part: ALL poll sequences (leaves of the prefix-closed tree; the trace is compared after every poll, so every prefix is covered) of length 2*lookups+suspensions (2 tasks, capped at 11 quick / 12 thorough) resp. lookups+suspensions+3|4 (3 tasks, capped at 8 / 9) for 2 tasks x <=2 lookups x <=2 keys x <=2 suspensions and 3 tasks x 1 lookup x 2 keys x <=1 suspension, arbitrary-poll executor; random part: 2..4 tasks x 1..3 lookups x 1..3 keys x 0..3 suspensions x outcomes ok/nf/pe under the arbitrary-poll executor (random schedules with spurious polls), the waker-respecting executor (random choices among woken tasks) and join_all on a tokio runtime. non-trivial = at least two tasks ask for a common key and at least one poll found the lock taken (blocked poll) or the run used >= 2 tasks with a suspending supplier; distinct = distinct case line".into()
     }
     fn exhaustive_part(&self) -> Option<String> {
         Some("all poll sequences (task ids incl. spurious polls) up to the length bound for every configuration of 2 tasks x <=2 lookups x <=2 keys x <=2 suspensions (up to task/key symmetry) and 3 tasks x 1 lookup x 2 keys x <=1 suspension, compared with the model after every poll".into())
@@ -660,7 +672,8 @@ impl Engine for Once {
                             .enumerate()
                             .map(|(t, p)| p.iter().enumerate().map(|(i, k)| (*k, (t + i + oc) % 3 == 0)).collect())
                             .collect();
-                        let len = sched_len(&progs, &sup, 2, if quick { 9 } else { 12 });
+                        let lookups: usize = progs.iter().map(|p| p.len()).sum();
+                        let len = sched_len(&progs, &sup, lookups, if quick { 11 } else { 12 });
                         all_seqs(2, len, &mut |s| emit(fmt_cfg(&progs, &sup, 'a', s.to_vec())));
                     }
                 }
@@ -675,7 +688,7 @@ impl Engine for Once {
                         sup.insert(0u64, (d0, r0));
                         sup.insert(1u64, (d1, r1));
                         let progs: Vec<Vec<(u64, bool)>> = prog.iter().map(|k| vec![(*k, false)]).collect();
-                        let len = sched_len(&progs, &sup, 2, if quick { 6 } else { 8 });
+                        let len = sched_len(&progs, &sup, if quick { 3 } else { 4 }, if quick { 8 } else { 9 });
                         all_seqs(3, len, &mut |s| emit(fmt_cfg(&progs, &sup, 'a', s.to_vec())));
                     }
                 }
